@@ -533,4 +533,113 @@ example : (handleM (runHandle {} [("GET", "/u/:id", some 1)]) "GET" "/u/:id/" (s
 example : (handleM {} "PUT" "/a" none).1.trees.length = 1 ∧ serve (handleM {} "PUT" "/a" none).1 "GET" "/a" = .notFound := by
   decide +kernel
 
+/-! ### a failing raw `Tree.Add` -/
+
+theorem updKidM_eq (k : String) (f : Option Node → Node × Option AddErr) (l : List (String × Node)) :
+    updKidM k f l = (setKid k (f (l.lookup k)).1 l, (f (l.lookup k)).2) := by
+  induction l with
+  | nil => rfl
+  | cons a tl ih =>
+    obtain ⟨k', c⟩ := a
+    simp only [updKidM, setKid, List.lookup]
+    by_cases hk : k' = k
+    · subst hk; simp
+    · have : (k == k') = false := by simpa using fun e : k = k' => hk e.symm
+      simp only [hk, if_false, this, ih]
+
+theorem updChildM_eq (n : Node) (k : String) (f : Option Node → Node × Option AddErr) :
+    updChildM n k f = (setKids n (isVar k) (setKid k (f (child n k)).1 (kids n (isVar k))), (f (child n k)).2) := by
+  unfold updChildM
+  rw [child_eq]
+  cases hv : isVar k <;> simp [kids, setKids, updKidM_eq]
+
+/-- **A failing `add` leaves nothing visible behind** (also `errDupSlash`, which may leave item-less nodes in the real
+tree): the tree after the failing call is well-formed and stores, key for key, what it stored before — so every
+theorem stated through `WF` and `lookupW` (`tree_search_raw`, `tree_search_raw_admissible`, `tree_add_accepts`, …)
+speaks about the REAL tree after any history of successful and failing raw `Add` calls. -/
+theorem addM_error_invisible (toks : List String) : ∀ (n : Node) (h : H) (e : AddErr), WF n →
+    (addM toks n h).2 = some e →
+    WF (addM toks n h).1 ∧ ∀ ks, lookupW ks (addM toks n h).1 = lookupW ks n := by
+  induction toks with
+  | nil => intro n h e _ he; simp [addM] at he
+  | cons t rest ih =>
+    intro n h e hwf he
+    rcases addM_err_cases _ _ _ _ he with rfl | rfl
+    · rw [addM_dup_unchanged _ _ _ he]; exact ⟨hwf, fun _ => rfl⟩
+    · cases rest with
+      | nil =>
+        -- a single element never gives errDupSlash
+        exfalso
+        have ha := addM_agrees [t] n h
+        unfold Agree at ha; rw [he] at ha
+        exact add_single_ne_dupSlash t n h ha
+      | cons r rs =>
+        have hdef : addM (t :: r :: rs) n h =
+            (if t = "" then (n, some .dupSlash) else updChildM n t fun oc => addM (r :: rs) (oc.getD (newNode none)) h) := by
+          rw [addM]
+        rw [hdef] at he ⊢
+        by_cases ht : t = ""
+        · simp only [ht, if_true]; exact ⟨hwf, fun _ => trivial⟩
+        · simp only [ht, if_false] at he ⊢
+          rw [updChildM_eq] at he ⊢
+          simp only at he ⊢
+          -- the child the recursion ran on
+          have hcw : WF ((child n t).getD (newNode none)) := by
+            cases hc : child n t with
+            | none => exact wf_newNode none
+            | some c => exact child_wf hwf hc
+          obtain ⟨hw', hl'⟩ := ih _ h _ hcw he
+          constructor
+          · apply wf_setKids hwf
+            · exact nodup_setKid _ _ _ (hwf.kids_nodup _)
+            · intro kc hkc
+              rcases mem_setKid hkc with e1 | e1
+              · rw [e1]
+              · exact hwf.kids_kind _ kc e1
+            · intro kc hkc
+              rcases mem_setKid hkc with e1 | e1
+              · rw [e1]; exact hw'
+              · exact hwf.kids_wf _ kc e1
+          · intro ks
+            cases ks with
+            | nil => simp only [lookupW, item_setKids]
+            | cons k ks' =>
+              simp only [lookupW, child_setKids, lookup_setKid]
+              by_cases hkv : isVar k = isVar t
+              · simp only [hkv, if_true]
+                by_cases hkt : k = t
+                · subst hkt
+                  simp only [if_true, Option.bind_some]
+                  rw [hl' ks']
+                  cases hc : child n k with
+                  | none => simp [lookupW_newNode]
+                  | some c => simp
+                · simp only [hkt, if_false]
+                  rw [child_eq, hkv]
+              · simp only [hkv, if_false]
+
+/-- **`Tree.Add` with the mutation visible**: the verdict of `treeAdd`, on success its tree, and after ANY failure
+(`errNotFromRoot`, `errEmptyItem`, `errDupItem`, `errDupSlash`) a well-formed tree that stores exactly what it stored. -/
+theorem treeAddM_spec (root : Node) (hwf : WF root) (route : String) (item : Option H) :
+    (match (treeAddM root route item).2 with
+     | none => treeAdd root route item = .ok (treeAddM root route item).1
+     | some e => treeAdd root route item = .error e) ∧
+    (∀ e, (treeAddM root route item).2 = some e →
+      WF (treeAddM root route item).1 ∧ ∀ ks, lookupW ks (treeAddM root route item).1 = lookupW ks root) := by
+  unfold treeAddM treeAdd
+  cases hr : rooted route
+  · simp [hwf]
+  · cases item with
+    | none => simp [hwf]
+    | some h =>
+      simp only [Bool.not_true, Bool.false_eq_true, if_false]
+      refine ⟨?_, fun e he => addM_error_invisible _ _ _ _ hwf he⟩
+      have := addM_agrees (toksOf route) root h
+      unfold Agree at this
+      exact this
+
+example : (treeAddM (newNode none) "/a//b" (some 1)).2 = some .dupSlash ∧
+    (treeAddM (newNode none) "/a//b" (some 1)).1.lits.length = 1 ∧
+    treeSearch (treeAddM (newNode none) "/a//b" (some 1)).1 "/a" = none := by decide +kernel
+
 end GoZero.C09
